@@ -6,7 +6,7 @@ func init() {
 		Title: "Batched requests are answered in order and independently",
 		Kernels: []Kernel{
 			{Name: "batch-all-interleavings", Pkg: ".", Files: []string{"root/fed.go", "root/c01.go", "root/c08.go"}, Entry: "VerifBatch", Mode: "all", Race: true, Native: true,
-				Quick: map[string]int{"rmax": 2, "classes": 12}, Thorough: map[string]int{"rmax": 3, "classes": 12},
+				Quick: map[string]int{"rmax": 2, "classes": 14}, Thorough: map[string]int{"rmax": 3, "classes": 14},
 				Reach:     []string{"single", "batch of several", "empty batch"},
 				Functions: []string{"(*Gateway).Handler", "(*Gateway).queryHandler", "(*Gateway).queryHandler$1", "(*Gateway).queryHandler$2", "Results.Emit", "emitError", "(*Gateway).parseIntrospectionQuery", "(*Gateway).getQueryers", "requests.Parse", "requests.parseRequest", "common.AsyncMapReduce[int,*Result,Results]", "planner.SequentialPlanner.Plan", "introspection.(*IntrospectionResolver).ResolveIntrospectionFields", "gqlerrors.FormatError"}},
 		},
